@@ -978,8 +978,11 @@ def r19(ctx: Ctx, m):
       if not any(isinstance(y, ast.Name) and y.id == op for y in ast.walk(st.test)):
         continue
       n += 1
-      elementwise = [c for c in ast.walk(st.test) if isinstance(c, ast.Call) and unparse(c.func) in ('any', 'all', 'sum', 'np.any', 'np.all')
-                     and any(isinstance(y, ast.Name) and y.id == op for y in ast.walk(c))]
+      # builtin any()/all()/sum() DIRECTLY over a container attribute of the operand (`any(other.samples)`); numeric tests such
+      # as np.all(np.isnan(other.mean)) are "no data" tests of an array statistic, not of a container of columns
+      elementwise = [c for c in ast.walk(st.test) if isinstance(c, ast.Call) and unparse(c.func) in ('any', 'all', 'sum')
+                     and len(c.args) == 1 and isinstance(c.args[0], ast.Attribute) and isinstance(c.args[0].value, ast.Name)
+                     and c.args[0].value.id == op]
       what = f'{ci.name}.merge: the early return tests the operand\'s state container itself'
       if elementwise:
         ctx.fail(rule, fi, what,
